@@ -48,7 +48,7 @@ impl Region {
 
 pub fn run(rep: &mut Report, thorough: bool) {
     crate::util::install_quiet_panic_hook();
-    rep.rule = "a pattern mapping fenced by a PROT_NONE mapping on one side and an unmapped page on the other (one target has it at address 0), target suspended through the real suspend_threads; for each of the three strategies (forced through MemReader::for_*): EXHAUSTIVE small grid (every end distance 0..16 x every length 1..40 at the mapping end, and every start distance 0..16 x length 1..40 at the mapping start), sampled large ranges (4095,4096,4097,65535,65536 at all alignments mod 8), ranges crossing the end by 1..4096 bytes, ranges starting in the fence; both read() and read_to_vec(); plus short read histories on one auto-selecting reader (MemReader::new) whose first read starts in readable memory. Oracle: address-derived pattern. distinct = hash(strategy, start, length); non-trivial = every case".into();
+    rep.rule = "a pattern mapping fenced by a PROT_NONE mapping on one side and an unmapped page on the other (one target has it at address 0), target suspended through the real suspend_threads; for each of the three strategies (forced through MemReader::for_*): EXHAUSTIVE small grid (every end distance 0..16 x every length 1..40 at the mapping end, and every start distance 0..16 x length 1..40 at the mapping start), sampled large ranges (4095,4096,4097,65535,65536 at all alignments mod 8), ranges crossing the end by 1..4096 bytes, ranges starting in the fence; both read() and read_to_vec(); plus short read histories on one auto-selecting reader (MemReader::new) whose first read starts in readable memory. finally the target is killed (zombie) and the same readers are asked again. Oracle: address-derived pattern. distinct = hash(strategy, start, length); non-trivial = every case".into();
     let mut rng = Rng::new(rep.seed.wrapping_mul(171_717));
     let ntargets = if thorough { 49 } else { 3 };
     for ti in 0..ntargets {
@@ -290,12 +290,73 @@ pub fn run(rep: &mut Report, thorough: bool) {
                 }
             }
         }
+        // ---- the target dies (SIGKILL, not yet reaped: a zombie without an address space) while
+        // readers for it exist: NOTHING is readable any more, so every strategy must fail or return
+        // zero bytes - never "succeed" with bytes it did not read, and never panic
+        {
+            let mut readers: Vec<(usize, MemReader)> = (0..3).map(|k| (k, reader(k, pid))).collect();
+            // each reader has served one good read, so that its file / strategy is set up
+            for (_, mr) in readers.iter_mut() {
+                let mut dst = vec![0u8; 16];
+                let _ = mr.read(region.start as usize + 64, &mut dst);
+            }
+            drop(dumper);
+            unsafe {
+                libc::kill(pid, libc::SIGKILL);
+            }
+            let t0 = std::time::Instant::now();
+            // dead = the leader is a zombie, every other thread is gone, and the address space has been
+            // released (the memory map reads empty): the threads of a killed process die one by one,
+            // and the memory stays readable until the last of them has let go of it
+            let mut dead = false;
+            while t0.elapsed().as_secs() < 20 {
+                let leader_z = t.thread_status(pid).map(|s| s.0) == Some('Z');
+                let others_gone = t.manifest.tids.iter().all(|tid| !std::path::Path::new(&format!("/proc/{pid}/task/{tid}")).exists());
+                let no_mm = std::fs::read(format!("/proc/{pid}/maps")).map(|m| m.is_empty()).unwrap_or(true);
+                if leader_z && others_gone && no_mm {
+                    dead = true;
+                    break;
+                }
+                std::thread::sleep(std::time::Duration::from_millis(1));
+            }
+            if !dead {
+                rep.inconclusive("the killed target did not turn into a zombie without an address space within 20 s".to_string());
+                continue;
+            }
+            for (kind, mr) in readers.iter_mut() {
+                for &(start, len) in &[(region.start + 64, 16usize), (region.start + 4096, 4096), (region.end - 8, 8)] {
+                    for api in 0..2 {
+                        let r = std::panic::catch_unwind(std::panic::AssertUnwindSafe(|| {
+                            if api == 0 {
+                                let mut dst = vec![0xAAu8; len];
+                                mr.read(start as usize, &mut dst).map(|n| n).map_err(|e| format!("{e}"))
+                            } else {
+                                mr.read_to_vec(start as usize, std::num::NonZeroUsize::new(len).unwrap()).map(|v| v.len()).map_err(|e| format!("{e}"))
+                            }
+                        }));
+                        rep.case(fnv(format!("dead/{kind}/{start}/{len}/{api}").as_bytes()), true);
+                        rep.count("reads_from_a_dead_target", 1);
+                        match r {
+                            Ok(Ok(n)) if n > 0 => rep.violation(
+                                &format!("C17 {} fabricated data: the target has no address space any more", STRATEGIES[*kind]),
+                                json!({"strategy": STRATEGIES[*kind], "api": if api == 0 { "read" } else { "read_to_vec" }, "start": format!("{start:#x}"), "len": len, "claimed_bytes": n}),
+                            ),
+                            Ok(_) => {}
+                            Err(p) => rep.violation(
+                                &format!("C17 {} panicked on a read from a target that has died", STRATEGIES[*kind]),
+                                json!({"strategy": STRATEGIES[*kind], "panic": crate::util::panic_message(&p), "at": crate::util::short_loc(&crate::util::last_panic_loc())}),
+                            ),
+                        }
+                    }
+                }
+            }
+        }
         if rep.samples.len() < 3 {
             rep.sample(json!({"mapping": format!("[{:#x},{:#x})", region.start, region.end), "fence": if mirrored { "PROT_NONE after, unmapped before" } else { "PROT_NONE before, unmapped after" }, "readable_cases": cases.len(), "crossing_cases": crossing.len(), "example_cases": cases.iter().take(3).map(|(s, l)| format!("{s:#x}+{l}")).collect::<Vec<_>>()}));
         }
-        drop(dumper);
     }
     rep.require("readable_range_reads", 1000);
     rep.require("partly_unreadable_range_reads", 50);
     rep.require("auto_reader_reads", 100);
+    rep.require("reads_from_a_dead_target", 18);
 }
